@@ -171,7 +171,8 @@ def _gen_for(stream, seed):
         r3 = random.Random(seed ^ 0x7157)
         if sc["events"] and (r3.random() < 0.2 or seed % 4 == 2):
             # two events identical in every respect (same damage, same dates, no name)
-            sc["events"].append(copy.deepcopy(sc["events"][0]))
+            caps_ = [e_ for e_ in sc["events"] if e_["type"] != "arbitrary"]
+            sc["events"].append(copy.deepcopy(caps_[0] if caps_ else sc["events"][0]))
         rebs_ = [ev for ev in sc["events"] if ev["type"] == "rebuild"]
         if rebs_ and r3.random() < 0.3:
             # an industry of a rebuilding sector is itself damaged by the event it has to rebuild
